@@ -214,6 +214,99 @@ class SimFS:
         self.events.append(("truncate" if existed else "create", self._abs(comps + [last])))
         return SimWriter(self, f, "b" in mode, path)
 
+    def rename(self, src, dst):
+        scomps, sparent, slast = self._walk(src, parent=True)
+        if slast is None or slast not in sparent:
+            raise FileNotFoundError(errno.ENOENT, "No such file or directory", src)
+        node = sparent[slast]
+        if self.isdir(dst) and not isinstance(node, dict):
+            raise IsADirectoryError(errno.EISDIR, "Is a directory", dst)
+        dcomps, dparent, dlast = self._walk(dst, parent=True)
+        if dlast in (None, ".", ".."):
+            raise OSError(errno.EINVAL, "Invalid argument", dst)
+        self._mutating("rename", dst)
+        del sparent[slast]
+        existed = dlast in dparent
+        dparent[dlast] = node
+        self.events.append(("remove", self._abs(scomps + [slast])))
+        self.events.append(("mkdir" if isinstance(node, dict) else ("truncate" if existed else "create"), self._abs(dcomps + [dlast])))
+
+    def move(self, src, dst):
+        """shutil.move: into the directory if dst is an existing directory"""
+        if self.isdir(dst):
+            dst = posixpath.join(dst, posixpath.basename(src.rstrip("/")))
+        self.rename(src, dst)
+        return dst
+
+    def copyfile(self, src, dst):
+        comps, node = self._walk(src)
+        if isinstance(node, dict):
+            raise IsADirectoryError(errno.EISDIR, "Is a directory", src)
+        if self.isdir(dst):
+            dst = posixpath.join(dst, posixpath.basename(src))
+        with self.open(dst, "wb") as f:
+            f.write(node.data)
+        return dst
+
+    def rmtree(self, path, ignore_errors=False, onerror=None):
+        try:
+            for root, dirs, files in list(self.walk(path, topdown=False)):
+                for f in files:
+                    self.remove(posixpath.join(root, f))
+                for d in dirs:
+                    self.rmdir(posixpath.join(root, d))
+            self.rmdir(path)
+        except OSError:
+            if not ignore_errors:
+                raise
+
+    # ---- temp files (tempfile.* is redirected here while the command runs) ---------------
+    tmpdir = "/sim/tmp"
+    _tmp_counter = 0
+    _fds = None
+
+    def mkstemp(self, suffix=None, prefix=None, dir=None, text=False):
+        self._tmp_counter += 1
+        d = dir or self.tmpdir
+        if not self.exists(d):
+            self._mk(self._split(posixpath.normpath(posixpath.join(self.cwd, d))))
+        path = posixpath.join(d, "%s%06d%s" % (prefix or "tmp", self._tmp_counter, suffix or ""))
+        w = self.open(path, "w" if text else "wb")
+        if self._fds is None:
+            self._fds = {}
+        fd = 1000 + self._tmp_counter
+        self._fds[fd] = w
+        return fd, path
+
+    def mkdtemp(self, suffix=None, prefix=None, dir=None):
+        self._tmp_counter += 1
+        d = dir or self.tmpdir
+        if not self.exists(d):
+            self._mk(self._split(posixpath.normpath(posixpath.join(self.cwd, d))))
+        path = posixpath.join(d, "%s%06d%s" % (prefix or "tmp", self._tmp_counter, suffix or ""))
+        self.mkdir(path)
+        return path
+
+    def fdopen(self, fd, mode="r", *a, **k):
+        if self._fds and fd in self._fds:
+            w = self._fds[fd]
+            w.binary = "b" in mode
+            return w
+        raise OSError(errno.EBADF, "Bad file descriptor")
+
+    def fd_write(self, fd, data):
+        if self._fds and fd in self._fds:
+            w = self._fds[fd]
+            w.binary = True
+            return w.write(data)
+        raise OSError(errno.EBADF, "Bad file descriptor")
+
+    def fd_close(self, fd):
+        if self._fds and fd in self._fds:
+            self._fds.pop(fd).close()
+            return
+        raise OSError(errno.EBADF, "Bad file descriptor")
+
     def all_paths(self):
         out = []
 
@@ -305,12 +398,86 @@ class SimOS(types.ModuleType):
         self.rmdir = fs.rmdir
         self.listdir = fs.listdir
         self.walk = fs.walk
+        self.rename = fs.rename
+        self.replace = fs.rename
+        self.fdopen = fs.fdopen
+        self.close = fs.fd_close
+        self.write = fs.fd_write
 
     def getcwd(self):
         return self._fs.cwd
 
     def __getattr__(self, name):
-        if name in ("rename", "replace", "symlink", "link", "chdir", "open", "removedirs", "renames", "scandir", "stat",
+        if name in ("symlink", "link", "chdir", "open", "removedirs", "renames", "scandir", "stat",
                     "lstat", "chmod", "truncate", "mkfifo", "utime"):
             raise AttributeError(f"os.{name} is not simulated (the export code under test does not use it)")
         return getattr(_os, name)
+
+
+class SimNamedTemp:
+    """tempfile.NamedTemporaryFile / TemporaryDirectory stand-ins"""
+
+    def __init__(self, fs, mode="w+b", suffix=None, prefix=None, dir=None, delete=True, **k):
+        fd, self.name = fs.mkstemp(suffix, prefix, dir)
+        self._w = fs.fdopen(fd, mode)
+        self._fs, self._delete = fs, delete
+
+    def write(self, s):
+        return self._w.write(s)
+
+    def flush(self):
+        pass
+
+    def close(self):
+        self._w.close()
+        if self._delete and self._fs.exists(self.name):
+            self._fs.remove(self.name)
+
+    def __enter__(self):
+        return self
+
+    def __exit__(self, *a):
+        self.close()
+        return False
+
+
+class SimTempDir:
+    def __init__(self, fs, suffix=None, prefix=None, dir=None, **k):
+        self._fs = fs
+        self.name = fs.mkdtemp(suffix, prefix, dir)
+
+    def cleanup(self):
+        self._fs.rmtree(self.name, ignore_errors=True)
+
+    def __enter__(self):
+        return self.name
+
+    def __exit__(self, *a):
+        self.cleanup()
+        return False
+
+
+def patch_tempfile_and_shutil(fs):
+    """Redirect the process-wide tempfile.* and the mutating shutil.* functions to fs; returns an undo function."""
+    import shutil
+    import tempfile
+    saved = []
+
+    def setp(mod, name, val):
+        saved.append((mod, name, getattr(mod, name)))
+        setattr(mod, name, val)
+    setp(tempfile, "mkstemp", fs.mkstemp)
+    setp(tempfile, "mkdtemp", fs.mkdtemp)
+    setp(tempfile, "gettempdir", lambda: fs.tmpdir)
+    setp(tempfile, "NamedTemporaryFile", lambda *a, **k: SimNamedTemp(fs, *a, **k))
+    setp(tempfile, "TemporaryDirectory", lambda *a, **k: SimTempDir(fs, *a, **k))
+    setp(shutil, "move", fs.move)
+    setp(shutil, "copy", fs.copyfile)
+    setp(shutil, "copy2", fs.copyfile)
+    setp(shutil, "copyfile", fs.copyfile)
+    setp(shutil, "rmtree", fs.rmtree)
+
+    def undo():
+        for mod, name, val in reversed(saved):
+            setattr(mod, name, val)
+    return undo
